@@ -288,6 +288,8 @@ class Engine:
             for p in parts[1:]:
                 out = ('xor', out, p)
             return out
+        if k == 'cmp' and e[1] == 'is' and e[3] == ('const', None) and (self.w.bit(e[2]) or self.w.is_signal(e[2])):
+            return F                    # a declared signal is never None
         if k == 'cmp' and e[1] in ('==', '!='):
             # (a - b) == 0 between two one-bit operands -> xnor
             lhs, rhs = e[2], e[3]
@@ -323,10 +325,26 @@ class Engine:
         if k == 'case':
             pats = tuple(self.norm(p) for p in fr[2])
             pats = tuple(('const', p[3]) if p[0] == 'enum' and isinstance(p[3], int) else p for p in pats)
+            bb = self._blast(fr[1], pats)
+            if bb is not None:
+                return bb
             key = f"case#{fr[1]}(" + ", ".join(ir.show(p) for p in pats) + ")"
             self.atom_ir[key] = ('caseatom', fr[1], pats)
             return ('atom', key)
         if k == 'default':
+            t = self.w.t
+            if t is not None and fr[1] in t.switch_cases:
+                alls = []
+                for pats in t.switch_cases[fr[1]]:
+                    pn = tuple(self.norm(p) for p in pats)
+                    pn = tuple(('const', p[3]) if p[0] == 'enum' and isinstance(p[3], int) else p for p in pn)
+                    b = self._blast(fr[1], pn)
+                    if b is None:
+                        alls = None
+                        break
+                    alls.append(b)
+                if alls is not None:
+                    return f_not(f_or(*alls))
             key = f"default#{fr[1]}"
             self.atom_ir[key] = ('defaultatom', fr[1])
             return ('atom', key)
@@ -336,6 +354,40 @@ class Engine:
         if k in ('for', 'switch', 'try', 'except'):
             return T
         raise AssertionError(fr)
+
+    def _blast(self, sid, pats):
+        """Case of a Switch whose subject is a concatenation of one-bit signals (or one such signal): the match is a
+        Boolean function of those bits."""
+        t = self.w.t
+        if t is None or sid not in t.switches:
+            return None
+        subj = self.norm(t.switches[sid])
+        if subj[0] == 'call' and subj[1] == ('name', 'Cat') and subj[2] and all(self.w.bit(b) for b in subj[2]):
+            bits = list(subj[2])
+        elif self.w.bit(subj):
+            bits = [subj]
+        else:
+            return None
+        alts = []
+        for p in pats:
+            if p[0] == 'const' and isinstance(p[1], int) and not isinstance(p[1], bool):
+                if p[1] >= (1 << len(bits)):
+                    alts.append(F)
+                    continue
+                pat = [(p[1] >> i) & 1 for i in range(len(bits))]
+            elif p[0] == 'const' and isinstance(p[1], str) and len(p[1].replace("_", "")) == len(bits) and set(p[1]) <= set("01-_"):
+                s_ = p[1].replace("_", "")
+                pat = [None if ch == '-' else int(ch) for ch in reversed(s_)]
+            else:
+                return None
+            lits = []
+            for b, v in zip(bits, pat):
+                if v is None:
+                    continue
+                fb = self._b(b)
+                lits.append(fb if v else f_not(fb))
+            alts.append(f_and(*lits))
+        return f_or(*alts)
 
     def guard(self, driver, include_gen=True):
         parts = [self.frame_formula(fr) for fr in driver.dsl]
@@ -376,7 +428,7 @@ class Engine:
             return ('const', int(e[1]))
         if e[0] == 'enum':
             return ('const', e[3])
-        return e if e[0] == 'const' else ('sym', ir.show(e))
+        return e if e[0] == 'const' else ('sym', ir.show(e), e)
 
     # -- exclusivity ---------------------------------------------------------------------------
     def exclusive_groups(self, atoms):
@@ -442,7 +494,7 @@ def _pick(engine, dl, val):
     for g, v in dl.entries:
         if f_eval(g, val):
             r = engine.eval_value(v, val)
-            if dl.target is not None and dl.default == HOLD and r == ('sym', ir.show(dl.target)):
+            if dl.target is not None and dl.default == HOLD and r[0] == 'sym' and r[1] == ir.show(dl.target):
                 return ('hold',)                        # x <= x
             return r
     if dl.default == HOLD:
@@ -472,8 +524,107 @@ def compare(engine, got, want, assume=None):
         b = _pick(engine, want, val)
         if a != b:
             on = ", ".join(f"{k}={int(v)}" for k, v in sorted(val.items()))
+            opaque_side = (a[0] == 'sym' and is_config(a[2])) or (b[0] == 'sym' and is_config(b[2]))
+            if opaque_side or (a[0] == 'sym' and b[0] == 'sym' and differ(a[2], b[2]) != 'different'):
+                raise Undecided(f"at [{on}] the value is {_vs(a)} where the role table has {_vs(b)}: two expressions outside the "
+                                "normal forms; their equivalence is not decided (N5)")
             return False, rows, f"at [{on}] found {_vs(a)} expected {_vs(b)}"
     return True, rows, None
+
+
+KNOWN_CALLS = {"Cat", "Mux", "Repl", "len", "range", "exact_log2", "ceil_log2", "Const", "C", "Signal"}
+KNOWN_METHODS = {"any", "all", "bool", "replicate", "as_unsigned", "as_signed"}
+
+
+def comparable(e):
+    """Built only from constructs the normaliser understands: two different comparable expressions are different values."""
+    for x in ir.walk(e):
+        k = x[0]
+        if k == 'call':
+            fn = x[1]
+            if fn[0] == 'name' and fn[1] in KNOWN_CALLS:
+                continue
+            if fn[0] == 'attr' and fn[2] in KNOWN_METHODS:
+                continue
+            return False
+        if k in ('opaque', 'fstr', 'dict', 'localfn'):
+            return False
+        if k == 'bin' and x[1] in ('//', '%', '**', '/', '>>', '<<', '@'):
+            # integer arithmetic outside the linear forms
+            return False
+    return True
+
+
+DSL_CALLS = {"Cat", "Mux", "Repl", "Const", "C"}
+DSL_METHODS = {"any", "all", "bool", "replicate", "as_unsigned", "as_signed", "eq"}
+
+
+def is_config(e):
+    """A generation-time quantity whose value the analysis does not know: a private attribute of self, the result of a
+    function call (len, exact_log2, a helper), an opaque construct.  Two different configuration quantities may be equal
+    by an invariant of the class (e.g. a ratio cached in __init__ and len(bus.sel))."""
+    k = e[0]
+    if k in ('opaque', 'fstr'):
+        return True
+    if k == 'call':
+        fn = e[1]
+        if fn[0] == 'name' and fn[1] in DSL_CALLS:
+            return False
+        if fn[0] == 'attr' and fn[2] in DSL_METHODS:
+            return False
+        return True
+    if k == 'attr':
+        b = e
+        while b[0] == 'attr':
+            if b[1] == ('name', 'self') and b[2].startswith('_'):
+                # private state of the component; chains that go on to a public port of a sub-component are signals
+                return e is b
+            b = b[1]
+        return False
+    if k == 'bin' and e[1] in ('//', '%', '**', '/', '>>', '<<'):
+        return True
+    if k == 'ceildiv':
+        return True
+    return False
+
+
+def differ(a, b):
+    """'same' | 'different' | 'unknown' for two normalised expressions (see is_config)."""
+    if a == b:
+        return 'same'
+    if is_config(a) or is_config(b):
+        return 'unknown'
+    if a[0] == 'const' and b[0] == 'const':
+        return 'different'
+    if a[0] == 'lin' or b[0] == 'lin':
+        ca, da = (a[1], dict(a[2])) if a[0] == 'lin' else ((a[1], {}) if a[0] == 'const' else (0, {a: 1}))
+        cb, db = (b[1], dict(b[2])) if b[0] == 'lin' else ((b[1], {}) if b[0] == 'const' else (0, {b: 1}))
+        if any(is_config(t) for t in list(da) + list(db)):
+            return 'unknown'
+        if set(da) == set(db):
+            return 'different'                  # same atoms, different coefficients / constant
+        # different atom sets: compare the unmatched atoms pairwise
+        return 'different' if all(not is_config(t) for t in set(da) ^ set(db)) else 'unknown'
+    if a[0] != b[0]:
+        return 'different'
+    if a[0] == 'attr':
+        # two signal paths (neither is a bare private attribute): different members / sub-components are different signals
+        if a[2] != b[2]:
+            return 'different'
+        if a[1][0] == 'attr' and b[1][0] == 'attr' and a[1][1] == ('name', 'self') and b[1][1] == ('name', 'self'):
+            return 'different' if a[1][2] != b[1][2] else 'same'
+        r = differ(a[1], b[1])
+        return r
+    ka = list(ir.children(a))
+    kb = list(ir.children(b))
+    if len(ka) != len(kb) or (a[0] in ('attr',) and a[2] != b[2]) or (a[0] in ('nary', 'bin', 'un', 'cmp') and a[1] != b[1]):
+        return 'different'
+    res = [differ(x, y) for x, y in zip(ka, kb)]
+    if 'different' in res:
+        return 'different'
+    if 'unknown' in res:
+        return 'unknown'
+    return 'different' if a != b else 'same'
 
 
 def _vs(v):
